@@ -572,6 +572,8 @@ def _this_stamps(prog, chk, R, ex):
             ok, why = False, 'no class-context assignment or no stamp before the binding'
             if stamps and ctx_before:
                 cx = ctx_before[-1][1] if len(ctx_before) == 1 else max(ctx_before, key=lambda x: len(g.dominators(x[0])))[1]
+                from ..kcanon import Canon
+                cx = SX.strip(Canon(prog, f).expand(cx))
                 if SX.is_node(cx) and cx.get('k') == 'cond':
                     cx = SX.strip(cx['t'])
                 st = stamps[-1][1] if len(stamps) == 1 else max(stamps, key=lambda x: len(g.dominators(x[0])))[1]
@@ -596,7 +598,10 @@ def _class_context(prog, chk, R, ex):
     ws += [(n, SX.strip(v_)) for n, m_, v_, rst in virtual_writes(prog, f, g) if m_ == 'm_currentClassCtx']
     entry = [(n, r) for n, r in ws if execs and all(g.must_precede({n}, c) for c in execs)]
     chk.count('class-context assignments before a method body', len(entry), 1)
+    from ..kcanon import Canon
+    _cn = Canon(prog, f)
     for n, r in entry:
+        r = SX.strip(_cn.expand(r))       # the value may pass through a local (a value parameter of an inlined helper)
         ok = _member_of(r, 'owner', mp)
         if not ok and SX.is_node(r) and r.get('k') == 'cond':
             c, t = SX.strip(r['c']), SX.strip(r['t'])
